@@ -3,7 +3,7 @@
 import ast
 from fractions import Fraction as F
 
-from .. import bary, roles, unionq
+from .. import bary, baryvert, roles, unionq
 from ..core import AnalysisError
 from ..src import arg_names, unparse
 
@@ -120,6 +120,7 @@ def run(ctx):
     okb = len(calls) == 1 and len(calls[0].args) >= 3 and roles.canon(calls[0].args[2], bdefs).replace(" ", "") == roles.expect("_np.repeat(G.domain_indices, 6)", bdefs, calls[0].lineno, G=arg_names(bf)[0])
     r2.check(okb, "barycentric domain indices", GRID, "barycentric_refinement", bf.lineno, "barycentric domain indices", "domain indices are not repeated 6 times per element")
     # (b) union
+    baryvert.barycentric_vertices(ctx)
     union(ctx)
     unionq.union_domain_blocks(ctx)
     # (c) adjacency filters and layout
